@@ -1975,7 +1975,7 @@ class MultiValuedValue(Value):
                 for subval in self.vals
                 if isinstance(subval, KnownValue)
             }
-        except TypeError:
+        except Exception:
             return None  # not hashable
         else:
             # Make remaining check not consider the KnownValues again
@@ -2014,7 +2014,7 @@ class MultiValuedValue(Value):
                 known_values, my_vals = self._known_subvals
                 try:
                     is_present = (other.val, type(other.val)) in known_values
-                except TypeError:
+                except Exception:
                     pass  # not hashable
                 else:
                     if is_present:
